@@ -21,7 +21,7 @@ func init() {
 
 	props["C14"] = &Prop{
 		Rule: "ops bitsu/bitsi <buffer> <pos> <len>: all 8 alignments x all widths 1..64 (signed 2..64) x " +
-			"pattern classes (zeros, ones, minimum value, alternating, random) with random surrounding bits; " +
+			"pattern classes (zeros, ones, minimum value, alternating, random) with random surrounding bits; a 17,000-byte buffer with fields starting, ending and lying beyond bit 2^15, 2^16 and 2^17; " +
 			"non-trivial = field inside the buffer; distinct = distinct op line",
 		Gen:        genC14,
 		Oracle:     oracleC14,
@@ -116,6 +116,29 @@ func genC14(c *Ctx, emit func(class, op string)) {
 					if n >= 2 {
 						emit("i-"+pat, fmt.Sprintf("bitsi %s %d %d", hx(buf), pos, n))
 					}
+				}
+			}
+		}
+	}
+	// big buffers: fields whose start or end lies at or beyond bit 2^15, 2^16 and 2^17 (a position
+	// held in too narrow a type wraps there)
+	{
+		big := make([]byte, 17000)
+		c.Rng.Read(big)
+		h := hx(big)
+		for _, edge := range []int{1 << 15, 1 << 16, 1 << 17} {
+			for k := 0; k < c.N(6, 40); k++ {
+				n := 1 + c.Rng.Intn(64)
+				pos := edge - c.Rng.Intn(n+1) + c.Rng.Intn(3)*[]int{0, 1, 70}[c.Rng.Intn(3)]
+				if k%3 == 0 {
+					pos = edge - n // ends exactly at the edge
+				}
+				if k%3 == 1 {
+					pos = edge + c.Rng.Intn(500) // starts beyond it
+				}
+				emit("big-buffer", fmt.Sprintf("bitsu %s %d %d", h, pos, n))
+				if n >= 2 {
+					emit("big-buffer", fmt.Sprintf("bitsi %s %d %d", h, pos, n))
 				}
 			}
 		}
